@@ -276,6 +276,7 @@ func Main(h Harness) {
 		racepass = flag.Bool("racepass", false, "this is the -race build: collect race detector reports per execution")
 		racelog  = flag.String("racelog", "", "GORACE log_path prefix")
 	)
+	QuietLogs()
 	flag.Parse()
 	if err := vrt.SelfTest(); err != nil {
 		fmt.Fprintln(os.Stderr, "MACHINERY:", err)
